@@ -17,6 +17,7 @@ LEVEL_NOTE = ("Not decided: isomorphism of the produced graphs and equality of o
               "proof of two interpreters).  Trusted: helper renaming table (evaluate/evaluate_eager, add/add_lazy, test/test_eager).")
 LEVEL_TEXT += (" Also shared between the modes and checked in both: (E3.r) regex-capture lookup and its UndefinedRegexCapture failure; (C04.S/C04.M) strict scoped writes go to the scope node's own map, lazy scoped definitions are memoising thunks; (C04.F) in the lazy scoped store nothing is read between marking a name Forcing and Forced except the forced values themselves (a recursive definition is reported, not looped on).")
 LEVEL_TEXT += (" (E3.ctx) nested execution contexts redefine the same fields in both modes (locals, error context, a scan arm's captures) and hand everything else on; (E5.mut) both modes pass the same mutability flags; the three condition forms test the *evaluated* value (strict evaluate / lazy evaluate_eager).")
+LEVEL_TEXT += (' (E3.kind) set literals / comprehensions build only set values and list ones only list values, in both modes.')
 
 
 def _report(rep, rule, f, feats, problems, ids):
@@ -99,6 +100,7 @@ def siblings(prog, rep):
         if len(fs) == 2:
             _agree(rep, "E3.s", ty.rsplit("::", 1)[-1], fs["strict"], fs["lazy"])
     e3.context_inheritance(prog, rep)
+    e3.collection_kinds(prog, rep)
     return n
 
 
